@@ -406,9 +406,23 @@ func (e diskEngine) Exec(c *Case, job *Job) *Result {
 	disk := NewDisk(c.Faults)
 	simrt.SetOSHook(disk)
 	disk.StartFaults()
+	simrt.ResetOps()
 	o := buildCase(c)
+	ops := simrt.Ops()
 	simrt.SetOSHook(nil)
 	log := disk.log
+	served := 0
+	for _, a := range log {
+		served += a.Len
+	}
+	if c.Entry == "mem" {
+		if f := c.Project.File(c.Project.Root); f != nil {
+			served += len(f.Data)
+		}
+	}
+	// work per byte served, in 1/100 (reported as the maximum over the batch by the driver)
+	res.count("max:ops-per-100-bytes-served", int(ops*100/uint64(served+200)))
+	res.count("max:ops", int(ops))
 
 	// ---------- bookkeeping ----------
 	res.count("config:"+c.Project.Kind, 1)
@@ -611,7 +625,7 @@ func oracleC14(c *Case, o *Outcome, log []Access, mr *modelResult, asserted bool
 	if mr.sawCycle && o.OK {
 		return "cycle-accepted", "cycle-accepted", "the served include graph contains a cycle but the build returned a catalog"
 	}
-	if o.Err != nil && strings.Contains(o.Err.Msg, "recursion is detected") && strings.HasPrefix(strings.TrimLeft(o.Err.Quote, " \t"), "INCLUDE") && !mr.sawCycle && !mr.abstained {
+	if o.Err != nil && strings.Contains(o.Err.Msg, "recursion is detected") && strings.HasPrefix(strings.TrimLeft(o.Err.Quote, " \t"), "INCLUDE") && !mr.sawCycle && !mr.pathCycle && !mr.abstained {
 		return "false-recursion", "false-recursion", fmt.Sprintf("recursion error reported at %s:%d but no file of the served include graph includes itself", o.Err.File, o.Err.Line)
 	}
 	if mr.failFile != "" && o.Err != nil && !mr.abstained {
@@ -650,10 +664,24 @@ func locatedAtInclude(c *Case, o *Outcome, log []Access, mr *modelResult, res *R
 		return ""
 	}
 	q := c.Project.Clone()
+	inProject := map[string]bool{}
 	for i := range q.Files {
-		if d, ok := served[filepath.Join(projDir, q.Files[i].Path)]; ok {
+		k := filepath.Join(projDir, q.Files[i].Path)
+		inProject[k] = true
+		if d, ok := served[k]; ok {
 			q.Files[i].Data = append([]byte(nil), d...)
 		}
+	}
+	// files that only exist because a fault created them were served too
+	var extra []string
+	for k := range served {
+		if !inProject[k] && strings.HasPrefix(k, projDir+"/") {
+			extra = append(extra, k)
+		}
+	}
+	sortStrings(extra)
+	for _, k := range extra {
+		q.Files = append(q.Files, GenFile{Path: strings.TrimPrefix(k, projDir+"/"), Data: append([]byte(nil), served[k]...)})
 	}
 	inc := relProj(mr.failInst.Path)
 	f := q.File(inc)
@@ -785,10 +813,11 @@ func oracleC07(c *Case, o *Outcome, log []Access, mr *modelResult, treeAsserted 
 		want := strings.TrimLeft(raw, " \t\r\n")
 		q := strings.TrimLeft(e.Quote, " \t\r\n")
 		good := q == want
-		if !good && len(raw) > 200 && strings.HasSuffix(e.Quote, "...") {
-			// long lines are cut (the library keeps the first 197 bytes of the raw line) and marked with "..."
+		if !good && len(raw) > 100 && strings.HasSuffix(e.Quote, "...") {
+			// Long lines may be cut and marked with "..." (the property does not say where): what is
+			// left, modulo leading blanks, must be the beginning of the line.
 			cut := strings.TrimLeft(strings.TrimSuffix(e.Quote, "..."), " \t\r\n")
-			good = strings.HasPrefix(want, cut) && len(strings.TrimSuffix(e.Quote, "...")) >= 150
+			good = strings.HasPrefix(want, cut)
 		}
 		if !good && e.Index >= len(data) && e.Quote == "" {
 			good = true
